@@ -3,13 +3,19 @@
 //! personality the debugger sets — and records every executed instruction whose pc lies in the
 //! executable's own mappings:
 //!
-//!     <global pc hex> <call depth> <rsp hex>
+//!     <global pc hex> <call depth> <rsp hex> <gap>
+//!
+//! `gap` = number of instructions executed OUTSIDE the executable (libc, ld.so, vdso) since the previous
+//! recorded instruction (0 = the previous recorded instruction was executed immediately before this one).
 //!
 //! `global pc` = pc - load base (first mapping of the executable).  `call depth` comes from a shadow
 //! stack maintained over ALL instructions (also libc / ld.so): a step that moves rsp down by 8 and
 //! leaves `[rsp]` = address right after the previous instruction (within 15 bytes) is a call; a step
 //! whose new pc equals the word that was at the old rsp, with rsp moving up, is a return (entries are
 //! popped down to the matching stack pointer, which also covers longjmp-like stack cuts).
+//! Between instruction lines the shadow-stack changes are recorded — also those that happen outside the
+//! executable — as `+ <absolute return address hex> <rsp hex>` (call) and `- <n>` (n frames popped), so a
+//! reader can reconstruct the exact chain of return addresses at every recorded instruction.
 //! Header lines start with `#`:  `# base <hex>`, `# exit <code>`, `# steps <total> <recorded>`.
 //! The program's stdout/stderr go to <out-file>.stdout / .stderr.
 use std::ffi::CString;
@@ -68,14 +74,16 @@ fn main() {
     let mut regs: libc::user_regs_struct = unsafe { std::mem::zeroed() };
     unsafe { pt(libc::PTRACE_GETREGS, pid, 0, &mut regs as *mut _ as usize) };
     let (mut total, mut recorded) = (0u64, 0u64);
+    let mut gap = 0u64;
     let exit_code;
     loop {
         let pc = regs.rip;
         let rsp = regs.rsp;
         if in_exe(pc) {
-            writeln!(out, "{:x} {} {:x}", pc - base, shadow.len(), rsp).unwrap();
+            writeln!(out, "{:x} {} {:x} {}", pc - base, shadow.len(), rsp, gap).unwrap();
             recorded += 1;
-        }
+            gap = 0;
+        } else { gap += 1; }
         let tos_before = unsafe { *libc::__errno_location() = 0; pt(libc::PTRACE_PEEKDATA, pid, rsp as usize, 0) as u64 };
         unsafe { pt(libc::PTRACE_SINGLESTEP, pid, 0, 0) };
         unsafe { libc::waitpid(pid, &mut status, 0) };
@@ -96,17 +104,22 @@ fn main() {
             let tos = unsafe { pt(libc::PTRACE_PEEKDATA, pid, nrsp as usize, 0) as u64 };
             if tos > pc && tos <= pc + 15 && npc != tos {
                 shadow.push((tos, nrsp));
+                writeln!(out, "+ {tos:x} {nrsp:x}").unwrap();
             }
         } else if nrsp > rsp && npc == tos_before {
             // return (ret / ret imm16): pop down to the frame whose call left rsp at the old rsp
+            let before = shadow.len();
             while let Some(&(_, r)) = shadow.last() {
                 if r < nrsp { shadow.pop(); } else { break; }
             }
+            if before != shadow.len() { writeln!(out, "- {}", before - shadow.len()).unwrap(); }
         } else if nrsp > rsp {
             // stack cut without a return (longjmp, unwinding): drop frames below the new rsp
+            let before = shadow.len();
             while let Some(&(_, r)) = shadow.last() {
                 if r < nrsp { shadow.pop(); } else { break; }
             }
+            if before != shadow.len() { writeln!(out, "- {}", before - shadow.len()).unwrap(); }
         }
     }
     writeln!(out, "# exit {exit_code}").unwrap();
